@@ -10,6 +10,7 @@ def main(argv):
     pid = argv[0]
     tier = argv[1] if len(argv) > 1 else os.environ.get('VERIF_TIER', 'quick')
     seed = int(os.environ.get('VERIF_SEED', '0') or 0)
+    os.environ['VERIF_TIER_EFFECTIVE'] = tier
     mod = importlib.import_module('dfverif.checks.' + pid.lower())
     try:
         return mod.run(tier, seed)
